@@ -19,7 +19,7 @@ LEVEL = {"C46": "model_checking", "C47": "model_checking", "C35": "model_checkin
 
 # ------------------------------------------------------------------------------------------
 # helpers
-def run_driver(ctx, binary, sub, args, tag, timeout=3000, env=None):
+def run_driver(ctx, binary, sub, args, tag, timeout=14000, env=None):
     out = os.path.join(ctx.work, tag + ".results.ndjson")
     ctx.run([binary, sub, out] + args, timeout=timeout, env=env)
     rows = read_ndjson(out)
@@ -204,22 +204,22 @@ def check_C46(ctx):
     cores = ctx.cores
     # 1. tables evaluated by TLC: one state per input, laws of the decoder as invariants
     rb = ctx.tlc(RLP_FILES, "MC_RlpEnum", "MC_RlpEnum_b4.cfg" if ctx.quick else "MC_RlpEnum_b5.cfg",
-                 workers=cores, tag="rlp-boundary", timeout=1500)
-    ra = ctx.tlc(RLP_FILES, "MC_RlpEnum", "MC_RlpEnum_all2.cfg", workers=cores, tag="rlp-allbytes", timeout=2400)
+                 workers=cores, tag="rlp-boundary", timeout=(1500 if ctx.quick else 14000))
+    ra = ctx.tlc(RLP_FILES, "MC_RlpEnum", "MC_RlpEnum_all2.cfg", workers=cores, tag="rlp-allbytes", timeout=(2400 if ctx.quick else 14000))
     tables = [(rb, "2" if ctx.quick else "8"), (ra, "4")]
     if not ctx.quick:      # every 3-byte string whose first byte is a boundary byte (19 x 65536 + shorter ones)
-        tables.append((ctx.tlc(RLP_FILES, "MC_RlpEnum", "MC_RlpEnum_all3.cfg", workers=cores, tag="rlp-allbytes3", timeout=3000), "32"))
+        tables.append((ctx.tlc(RLP_FILES, "MC_RlpEnum", "MC_RlpEnum_all3.cfg", workers=cores, tag="rlp-allbytes3", timeout=(3000 if ctx.quick else 14000)), "32"))
     cases = rlp_cases(ctx.seed, ctx.quick)
     cf = os.path.join(ctx.work, "cases.ndjson")
     write_ndjson(cf, cases)
-    rc = ctx.tlc(RLP_FILES + [cf], "MC_RlpCases", "MC_RlpCases.cfg", workers=cores, tag="rlp-cases", timeout=1500)
+    rc = ctx.tlc(RLP_FILES + [cf], "MC_RlpCases", "MC_RlpCases.cfg", workers=cores, tag="rlp-cases", timeout=(1500 if ctx.quick else 14000))
     ninputs = sum(1 + len(c["m"]) for c in cases)
     if rc.distinct != ninputs + len(cases) + 1:      # one state per input + the fan-out states (start, one per case)
         raise Infra("case table has %d states for %d cases / %d inputs" % (rc.distinct, len(cases), ninputs))
     # 2. the real decoders on every row (Go API on all rows, Cadence scripts on both engines on all generated
     #    cases and on a hash-selected share of the enumerated tables: 1/2 and 1/4 quick, 1/8, 1/4 and 1/32 thorough)
     tables.append((rc, "all"))
-    summary, fails = run_driver(ctx, binary, "rlp", ["%s=%s" % (tlc_out(r), m) for r, m in tables], "rlp", timeout=3000)
+    summary, fails = run_driver(ctx, binary, "rlp", ["%s=%s" % (tlc_out(r), m) for r, m in tables], "rlp", timeout=(3000 if ctx.quick else 14000))
     expected_rows = sum(r.distinct for r, _ in tables[:-1]) + ninputs
     if summary["rows"] != expected_rows:
         raise Infra("driver judged %d rows, TLC printed %d" % (summary["rows"], expected_rows))
@@ -338,16 +338,16 @@ def rnd_cases(seed, quick):
 
 def check_C47(ctx):
     binary = ctx.build("text")
-    r8 = ctx.tlc(RND_FILES, "MC_Random", "MC_Random_u8.cfg", workers=ctx.cores, tag="rnd-u8", timeout=1500)
+    r8 = ctx.tlc(RND_FILES, "MC_Random", "MC_Random_u8.cfg", workers=ctx.cores, tag="rnd-u8", timeout=(1500 if ctx.quick else 14000))
     r16 = ctx.tlc(RND_FILES, "MC_Random", "MC_Random_u16q.cfg" if ctx.quick else "MC_Random_u16t.cfg", workers=ctx.cores,
-                  tag="rnd-u16", timeout=2400)
+                  tag="rnd-u16", timeout=(2400 if ctx.quick else 14000))
     cases = rnd_cases(ctx.seed, ctx.quick)
     cf = os.path.join(ctx.work, "cases.ndjson")
     write_ndjson(cf, cases)
-    rf = ctx.tlc(RND_FILES + [cf], "MC_Random", "MC_Random_file.cfg", workers=ctx.cores, tag="rnd-wide", timeout=1500)
+    rf = ctx.tlc(RND_FILES + [cf], "MC_Random", "MC_Random_file.cfg", workers=ctx.cores, tag="rnd-wide", timeout=(1500 if ctx.quick else 14000))
     if rf.distinct != 2 * len(cases) + 1:
         raise Infra("wide-type table has %d states for %d cases" % (rf.distinct, len(cases)))
-    summary, fails = run_driver(ctx, binary, "random", [tlc_out(r8), tlc_out(r16), tlc_out(rf)], "random", timeout=3000)
+    summary, fails = run_driver(ctx, binary, "random", [tlc_out(r8), tlc_out(r16), tlc_out(rf)], "random", timeout=(3000 if ctx.quick else 14000))
     for f in fails:
         ctx.report({"ty": f["ty"], "engine": f["engine"], "dev": f["dev"], "nomod": f["nomod"]},
                    "revertibleRandom<%s>(%s) on source 0x%s (%s): %s: %s"
@@ -530,7 +530,7 @@ def check_C35(ctx):
     binary = ctx.build("text")
     # --- LEB128: model (laws + table) and table conformance
     rn = ctx.tlc(LEB_FILES, "MC_Leb128", "MC_Leb128_native_q.cfg" if ctx.quick else "MC_Leb128_native_t.cfg",
-                 workers=ctx.cores, tag="leb-native", timeout=2400)
+                 workers=ctx.cores, tag="leb-native", timeout=(2400 if ctx.quick else 14000))
     rnd = random.Random(1000003 * ctx.seed + 351)
     vals = []
     for _ in range(300 if ctx.quick else 5000):
@@ -538,7 +538,7 @@ def check_C35(ctx):
         vals.append({"neg": rnd.random() < 0.5, "mag": list(v.to_bytes(8, "big"))})
     cf = os.path.join(ctx.work, "cases.ndjson")
     write_ndjson(cf, vals)
-    rb = ctx.tlc(LEB_FILES + [cf], "MC_Leb128", "MC_Leb128_big.cfg", workers=ctx.cores, tag="leb-big", timeout=1500)
+    rb = ctx.tlc(LEB_FILES + [cf], "MC_Leb128", "MC_Leb128_big.cfg", workers=ctx.cores, tag="leb-big", timeout=(1500 if ctx.quick else 14000))
     ls, lfails = run_driver(ctx, binary, "leb", [tlc_out(rn), tlc_out(rb)], "leb")
     for f in lfails:
         ctx.report({"part": "leb128", "fn": f["fn"], "dev": f["dev"]},
@@ -574,7 +574,7 @@ def check_C35(ctx):
         trace[len(trace) // 2]["digest"] = "0" * 64
     tf = os.path.join(ctx.work, "trace.ndjson")
     write_ndjson(tf, trace)
-    rd = ctx.tlc(LEB_FILES + [tf], "Digest", "Digest.cfg", workers=1, tag="digest", timeout=600, count=False)
+    rd = ctx.tlc(LEB_FILES + [tf], "Digest", "Digest.cfg", workers=1, tag="digest", timeout=(600 if ctx.quick else 14000), count=False)
     verdict = [x for x in rd.json_lines() if isinstance(x, dict) and "bad" in x]
     if not verdict or verdict[0]["events"] != len(trace):
         raise Infra("Digest.tla did not judge the trace")
@@ -589,7 +589,7 @@ def check_C35(ctx):
     # built-in negative control of the relation: one corrupted event must be in Bad
     ctrace = json.loads(json.dumps(trace)); ctrace[len(ctrace) // 2]["digest"] = "f" * 64
     write_ndjson(tf, ctrace)
-    rdc = ctx.tlc(LEB_FILES + [tf], "Digest", "Digest.cfg", workers=1, tag="digest-negctl", timeout=600, count=False)
+    rdc = ctx.tlc(LEB_FILES + [tf], "Digest", "Digest.cfg", workers=1, tag="digest-negctl", timeout=(600 if ctx.quick else 14000), count=False)
     vc = [x for x in rdc.json_lines() if isinstance(x, dict) and "bad" in x]
     if not vc or (len(ctrace) // 2 + 1) not in vc[0]["bad"]:
         raise Infra("negative control failed: corrupted digest event not rejected by Digest.tla")
@@ -729,16 +729,16 @@ def nt_sig(f):
 def check_C17(ctx):
     binary = ctx.build("text")
     re_ = ctx.tlc(NT_FILES, "MC_NumText", "MC_NumText_enum5.cfg" if ctx.quick else "MC_NumText_enum6.cfg", workers=ctx.cores,
-                  tag="numtext-enum", timeout=3000)
+                  tag="numtext-enum", timeout=(3000 if ctx.quick else 14000))
     cases = numtext_cases(ctx.seed, ctx.quick)
     cf = os.path.join(ctx.work, "cases.ndjson")
     write_ndjson(cf, cases)
-    rf = ctx.tlc(NT_FILES + [cf], "MC_NumText", "MC_NumText_file.cfg", workers=ctx.cores, tag="numtext-cases", timeout=3000)
+    rf = ctx.tlc(NT_FILES + [cf], "MC_NumText", "MC_NumText_file.cfg", workers=ctx.cores, tag="numtext-cases", timeout=(3000 if ctx.quick else 14000))
     frows = table_rows(rf)
     nS = sum(1 for c in cases if c["k"] == "S")
     if len(frows) != len(cases):
         raise Infra("case table has %d rows for %d cases" % (len(frows), len(cases)))
-    summary, fails = run_driver(ctx, binary, "numtext", [tlc_out(re_), tlc_out(rf)], "numtext", timeout=3000)
+    summary, fails = run_driver(ctx, binary, "numtext", [tlc_out(re_), tlc_out(rf)], "numtext", timeout=(3000 if ctx.quick else 14000))
     if summary["rows"] != re_.distinct + len(frows):
         raise Infra("driver judged %d rows, TLC printed %d" % (summary["rows"], re_.distinct + len(frows)))
     for f in fails:
@@ -880,17 +880,17 @@ def lit_sig(f):
 def check_C40(ctx):
     binary = ctx.build("text")
     ri = ctx.tlc(LIT_FILES, "MC_Literals", "MC_Literals_int_q.cfg" if ctx.quick else "MC_Literals_int_t.cfg", workers=ctx.cores,
-                 tag="lit-int", timeout=3000)
+                 tag="lit-int", timeout=(3000 if ctx.quick else 14000))
     rx = ctx.tlc(LIT_FILES, "MC_Literals", "MC_Literals_fix_q.cfg" if ctx.quick else "MC_Literals_fix_t.cfg", workers=ctx.cores,
-                 tag="lit-fix", timeout=3000)
+                 tag="lit-fix", timeout=(3000 if ctx.quick else 14000))
     cases = literal_cases(ctx.seed, ctx.quick)
     cf = os.path.join(ctx.work, "cases.ndjson")
     write_ndjson(cf, cases)
-    rf = ctx.tlc(LIT_FILES + [cf], "MC_Literals", "MC_Literals_file.cfg", workers=ctx.cores, tag="lit-cases", timeout=3000)
+    rf = ctx.tlc(LIT_FILES + [cf], "MC_Literals", "MC_Literals_file.cfg", workers=ctx.cores, tag="lit-cases", timeout=(3000 if ctx.quick else 14000))
     frows = table_rows(rf)
     if len(frows) != len(cases):
         raise Infra("case table has %d rows for %d cases" % (len(frows), len(cases)))
-    summary, fails = run_driver(ctx, binary, "literals", [tlc_out(ri), tlc_out(rx), tlc_out(rf)], "literals", timeout=3000)
+    summary, fails = run_driver(ctx, binary, "literals", [tlc_out(ri), tlc_out(rx), tlc_out(rf)], "literals", timeout=(3000 if ctx.quick else 14000))
     for f in fails:
         ctx.report(lit_sig(f), "%s literal `%s` for %s (%s): %s: %s" % (f["kind"], f["literal"][:80], f.get("ty", ""), f.get("engine", ""), f["dev"], f["msg"][:600]),
                    {"literal": f["literal"], "type": f.get("ty"), "spec": f.get("why"), "observed": f["msg"]})
